@@ -210,10 +210,12 @@ def qmul_np(p, q):
                      c * e + d * f + a * g - b * h, d * e - c * f + b * g + a * h])
 
 
-def ref_dots(X, Y, S, use_flags, drop_self_flags):
-    """brute force: D[i ++ j] = max_s term(y_j x_i^-1, s), numpy only"""
+def ref_dots(X, Y, S, mode):
+    """brute force, numpy only: D[i ++ j] = max_s term(y_j x_i^-1, s); self's flags are dropped
+    (angle_with_outer works on self.unit).
+    mode "eager": Rotation.dot_outer semantics -- 0 where exactly one of (pair, s) is improper, clip at 1;
+    mode "lazy":  what _dot_outer_dask computes -- proper symmetry elements only, orientation flags unused"""
     xs, ys = X.data.reshape(-1, 4), Y.data.reshape(-1, 4)
-    fx = X.improper.reshape(-1) if not drop_self_flags else np.zeros(X.size, bool)
     fy = Y.improper.reshape(-1)
     sd, sf = S.data.reshape(-1, 4), S.improper.reshape(-1)
     out = np.zeros((len(xs), len(ys)))
@@ -221,12 +223,14 @@ def ref_dots(X, Y, S, use_flags, drop_self_flags):
         xi = x * np.array([1, -1, -1, -1])
         for j, y in enumerate(ys):
             m = qmul_np(y, xi)
-            fm = bool(fx[i]) != bool(fy[j])
+            fm = bool(fy[j])
             best = 0.0
             for s, f in zip(sd, sf):
                 d = abs(float(np.dot(m, s)))
-                if use_flags:
+                if mode == "eager":
                     d = 0.0 if fm != bool(f) else min(1.0, d)
+                elif bool(f):
+                    continue
                 best = max(best, d)
             out[i, j] = best
     return out.reshape(X.shape + Y.shape)
@@ -269,14 +273,13 @@ if want("ori"):
         # ---- oracle: lazy angle_with_outer vs eager
         rep = {"X": rot_json(X), "Y": rot_json(Y), "groups": [g1, g2], "k": k}
         if not (ae.shape == al.shape and close(al, ae, 1e-6)):
-            # classify against numpy references (indexed self.shape + other.shape):
-            # R1 = eager semantics (flags used), R0 = flag-blind
-            R1 = to_angle(ref_dots(X, Y, S, True, True))
-            R0 = to_angle(ref_dots(X, Y, S, False, True))
-            if al.shape == R0.shape and close(al, R0, 1e-6) and not close(R0, R1, 1e-6):
-                fail("Orientation.angle_with_outer:lazy:improper-ignored",
-                     f"angle_with_outer(lazy=True) ignores improper flags (of other / of the symmetry elements): "
-                     f"self {ss} other {so} groups {g1},{g2}, flags {flags}, chunk {k}", rep)
+            # classify against numpy references (indexed self.shape + other.shape)
+            R1 = to_angle(ref_dots(X, Y, S, "eager"))
+            R0 = to_angle(ref_dots(X, Y, S, "lazy"))
+            if al.shape == R0.shape and close(al, R0, 1e-6) and not close(R0, R1, 1e-6) and Y.improper.any():
+                fail("Orientation.angle_with_outer:lazy:improper-orientation-ignored",
+                     f"angle_with_outer(lazy=True) ignores the improper flags of `other`: "
+                     f"self {ss} other {so} groups {g1},{g2}, chunk {k}", rep)
             elif al.shape != ae.shape or (len(ss + so) > 1 and al.shape == swap_groups(R0, len(ss)).shape and (
                     close(al, swap_groups(R0, len(ss)), 1e-6) or close(al, swap_groups(R1, len(ss)), 1e-6))):
                 fail("Orientation.angle_with_outer:lazy:axes-order",
@@ -284,22 +287,22 @@ if want("ori"):
                      f"other {so} -> lazy shape {al.shape}, eager shape {ae.shape}", rep)
             else:
                 fail("Orientation.angle_with_outer:lazy:values",
-                     f"angle_with_outer(lazy=True) matches neither the eager result nor its flag-blind reference: "
-                     f"self {ss} other {so} groups {g1},{g2}", rep)
+                     f"angle_with_outer(lazy=True) matches neither the eager result nor the reference of the lazy "
+                     f"formula: self {ss} other {so} groups {g1},{g2} flags {flags}", rep)
         # ---- get_distance_matrix lazy vs eager (self with self)
         ge = X.get_distance_matrix()
         gl = X.get_distance_matrix(**lazy_kw(k))
         st("odm")
         if not (ge.shape == gl.shape and close(gl, ge, 1e-6)):
-            R1 = to_angle(ref_dots(X, X, G1, True, True))
-            R0 = to_angle(ref_dots(X, X, G1, False, True))
-            if close(gl, R0, 1e-6) and not close(R0, R1, 1e-6):
-                fail("Orientation.get_distance_matrix:lazy:improper-ignored",
-                     f"get_distance_matrix(lazy=True) ignores improper flags (of the orientations / of the "
-                     f"symmetry elements): group {g1}, flags {flags}", rep)
+            R1 = to_angle(ref_dots(X, X, G1, "eager"))
+            R0 = to_angle(ref_dots(X, X, G1, "lazy"))
+            if close(gl, R0, 1e-6) and not close(R0, R1, 1e-6) and X.improper.any():
+                fail("Orientation.get_distance_matrix:lazy:improper-orientation-ignored",
+                     f"get_distance_matrix(lazy=True) ignores the improper flags of the orientations: group {g1}, "
+                     f"shape {ss}", rep)
             else:
                 fail("Orientation.get_distance_matrix:lazy:values",
-                     f"get_distance_matrix(lazy=True) differs from lazy=False: group {g1}, shape {ss}", rep)
+                     f"get_distance_matrix(lazy=True) differs from lazy=False: group {g1}, shape {ss}, flags {flags}", rep)
         # chunk independence of the lazy result itself
         k2 = R.choice([x for x in KS if x != k])
         al2 = X.angle_with_outer(Y, **lazy_kw(k2))
